@@ -214,7 +214,8 @@ def run(pid, tier="quick", seed=1, replay=None):
     work = os.path.join(os.environ.get("VERIF_SCRATCH") or BUILD, "run", pid); os.makedirs(work, exist_ok=True)
     ev_path = os.path.join(OUTROOT, "evidence", pid + ".json"); os.makedirs(os.path.dirname(ev_path), exist_ok=True)
     notes = []
-    violations = []   # dicts: sig, msg, case, impl, model
+    violations = []   # dicts: sig, msg, case, impl, model (+ info: the generator's metadata of the case, when it has any)
+    info_by_line = {}
     broken = []       # dicts describing broken theorem / correspondence
     known_lines = []
 
@@ -252,12 +253,18 @@ def run(pid, tier="quick", seed=1, replay=None):
     # ---- cases: replay, else corpus first, then generated
     if replay:
         rp = json.load(open(replay))
-        cases = [Case(l, ("replay",)) for l in rp.get("cases", [rp.get("case")]) if l]
+        infos = rp.get("infos", {})      # generator metadata some predicates need (Case.info), saved with the case
+        cases = [Case(l, ("replay",), info=infos.get(l)) for l in rp.get("cases", [rp.get("case")]) if l]
     else:
         cases = []
         for cf in sorted(glob.glob(os.path.join(VERIF, "corpus", pid, "*.case"))):
+            pending_info = None
             for l in open(cf).read().split("\n"):
-                if l.strip() and not l.startswith("#"): cases.append(Case(l.strip(), ("corpus",)))
+                if l.startswith("#info "):
+                    try: pending_info = json.loads(l[6:])
+                    except ValueError: pending_info = None
+                elif l.strip() and not l.startswith("#"):
+                    cases.append(Case(l.strip(), ("corpus",), info=pending_info)); pending_info = None
         cases += mod.generate(rng, tier)
 
     stats = {"evaluations": 0, "bit_identical": 0, "within_tol": 0, "mismatch": 0, "tags": {}, "outcomes": {}}
@@ -265,6 +272,7 @@ def run(pid, tier="quick", seed=1, replay=None):
     impl_out = model_out = []
     if exe and os.path.exists(driver) and cases:
         lines = [c.line for c in cases]
+        info_by_line = {c.line: c.info for c in cases if c.info}
         env = getattr(mod, "HARNESS_ENV", None)
         impl_out = [canon_impl(l) for l in run_exe(exe, lines, work, "impl", env=env)]
         model_out = [l.strip() for l in run_exe(driver, lines, work, "model")]
@@ -364,7 +372,7 @@ def run(pid, tier="quick", seed=1, replay=None):
         if ks:
             if ks[0]["id"] not in seen_known:
                 seen_known.add(ks[0]["id"])
-                known_cases[ks[0]["id"]] = {"case": v["case"][:20000], "signature": v["sig"], "observed": v["impl"][:300]}
+                known_cases[ks[0]["id"]] = {"case": v["case"][:20000], "signature": v["sig"], "observed": v["impl"][:300], "info": info_by_line.get(v["case"])}
                 known_lines.append(f"KNOWN-FINDING: property={pid} {ks[0]['what']}")
         else:
             new_viol.append(v)
@@ -392,9 +400,10 @@ def run(pid, tier="quick", seed=1, replay=None):
         v = min(new_viol, key=lambda v: len(v["case"]))
         h = hashlib.sha1((v["case"] + v["msg"]).encode()).hexdigest()[:10]
         rp = os.path.join("replays", f"{pid}-{h}.json")
-        json.dump({"property": pid, "kind": "failing-input", "case": v["case"], "observed": v["impl"], "model": v.get("model", ""), "required": v["msg"], "signature": v["sig"],
+        json.dump({"property": pid, "kind": "failing-input", "case": v["case"], "infos": ({v["case"]: info_by_line[v["case"]]} if v["case"] in info_by_line else {}),
+                   "observed": v["impl"], "model": v.get("model", ""), "required": v["msg"], "signature": v["sig"],
                    "others": [{"case": w["case"][:300], "msg": w["msg"]} for w in new_viol[1:6]], "broken": broken[:3],
-                   "replay_cmd": f"bin/check {pid} --replay {rp}"}, open(os.path.join(OUTROOT, rp), "w"), indent=1)
+                   "replay_cmd": f"bin/check {pid} --replay {rp}"}, open(os.path.join(OUTROOT, rp), "w"), indent=1, default=str)
         print(f"VIOLATION property={pid} replay={rp}")
         print(f"  {v['msg']}\n  case: {v['case'][:300]}\n  observed: {v['impl'][:300]}")
         rc = 1
@@ -403,7 +412,7 @@ def run(pid, tier="quick", seed=1, replay=None):
         h = hashlib.sha1(json.dumps(b, sort_keys=True, default=str).encode()).hexdigest()[:10]
         rp = os.path.join("replays", f"{pid}-{h}.json")
         cases_r = [m["case"] for m in mism[:20]]
-        json.dump({"property": pid, "kind": "no-longer-checks", "what_no_longer_checks": broken, "cases": cases_r,
+        json.dump({"property": pid, "kind": "no-longer-checks", "what_no_longer_checks": broken, "cases": cases_r, "infos": {l: info_by_line[l] for l in cases_r if l in info_by_line},
                    "note": "no input on which the property itself fails was found; the listed theorem / correspondence no longer checks against the current source",
                    "replay_cmd": f"bin/check {pid} --replay {rp}"}, open(os.path.join(OUTROOT, rp), "w"), indent=1, default=str)
         print(f"VIOLATION property={pid} replay={rp} no-failing-input-found")
